@@ -206,13 +206,15 @@ def copyWithNewAtts (f : FmtStr) (a : Atts) : FmtStr :=
 def newWithAttsRemoved (f : FmtStr) (ks : List Key) : FmtStr :=
   f.map fun c => ⟨c.s, c.atts.remove ks⟩
 
-/-- `shared_atts`: entries of the first chunk's dict that every non-empty chunk has too.
-    Raises IndexError on a FmtStr without chunks. -/
+/-- `shared_atts`: entries of the reference chunk's dict (the first NON-EMPTY chunk, or `chunks[0]` when
+    every chunk is empty) that every non-empty chunk has too. Raises IndexError on a FmtStr without chunks. -/
 def sharedAtts (f : FmtStr) : Except PyErr Atts :=
   match f with
   | [] => .error .indexError
-  | first :: _ =>
-    .ok ((f.filter fun c => !c.s.isEmpty).foldl (fun acc c => acc.inter c.atts) first.atts)
+  | head :: _ =>
+    let nonempty := f.filter fun c => !c.s.isEmpty
+    let first := match nonempty with | [] => head | c :: _ => c
+    .ok (nonempty.foldl (fun acc c => acc.inter c.atts) first.atts)
 
 /-- `copy_with_new_str(new_str)`: the merged dict of all chunks, later chunks overriding. -/
 def copyWithNewStr (f : FmtStr) (t : Text) : FmtStr :=
